@@ -401,3 +401,109 @@ def stream_disabled(check: Check, repo: Repo) -> None:
                  "only reachable for a present, enabled directive" if ok else
                  "this error can be raised although the directive is absent or disabled with if: false")
     check.floor(rule, 2, "raises in get_stream_usage")
+
+
+def stale_loop_var(check: Check, repo: Repo, mods: list, rule: str = "STALE-LOOP-VAR") -> None:
+    check.rule(
+        rule,
+        "a statement after a `for` loop does not read a variable whose only bindings are inside that loop's "
+        "body or target (it would see the leftovers of the last iteration - or be unbound for an empty "
+        "sequence): per-item work that must happen for every item stays inside the loop. Bindings in the "
+        "loop's `else` clause and lambda/comprehension parameters of the same name are not leftovers",
+    )
+    n_loops = 0
+    for mod in mods:
+        for fn in mod.functions():
+            params = {a.arg for a in fn.args.args + fn.args.kwonlyargs + fn.args.posonlyargs}  # type: ignore[attr-defined]
+            if fn.args.vararg:  # type: ignore[attr-defined]
+                params.add(fn.args.vararg.arg)  # type: ignore[attr-defined]
+            for owner in ast.walk(fn):
+                if isinstance(owner, (ast.FunctionDef, ast.AsyncFunctionDef, ast.Lambda)) and owner is not fn:
+                    continue
+                for field in ("body", "orelse", "finalbody"):
+                    blk = getattr(owner, field, None)
+                    if not isinstance(blk, list):
+                        continue
+                    for i, s in enumerate(blk):
+                        if not isinstance(s, (ast.For, ast.AsyncFor)):
+                            continue
+                        n_loops += 1
+                        inner = [s.target, *s.body]
+                        in_loop = {x.id for part in inner for x in ast.walk(part) if isinstance(x, ast.Name) and isinstance(x.ctx, ast.Store)}
+                        else_bound = {x.id for part in s.orelse for x in ast.walk(part) if isinstance(x, ast.Name) and isinstance(x.ctx, ast.Store)}
+                        outside = set()
+                        for x in ast.walk(fn):
+                            if isinstance(x, ast.Name) and isinstance(x.ctx, ast.Store) and not any(a is s for a in ancestors(x)):
+                                outside.add(x.id)
+                        only = in_loop - outside - params - else_bound
+                        if not only:
+                            continue
+                        bad = []
+                        for later in blk[i + 1:]:
+                            for x in ast.walk(later):
+                                if isinstance(x, ast.Name) and isinstance(x.ctx, ast.Load) and x.id in only:
+                                    # shadowed by a lambda / comprehension parameter?
+                                    shadow = False
+                                    for a in ancestors(x):
+                                        if a is later:
+                                            break
+                                        if isinstance(a, ast.Lambda) and x.id in {p.arg for p in a.args.args}:
+                                            shadow = True
+                                        if isinstance(a, (ast.ListComp, ast.SetComp, ast.DictComp, ast.GeneratorExp)) and any(
+                                                x.id in {t.id for t in ast.walk(g.target) if isinstance(t, ast.Name)} for g in a.generators):
+                                            shadow = True
+                                    if not shadow:
+                                        bad.append(x)
+                        if bad:
+                            for x in bad[:2]:
+                                check.ob(rule, x, f"{qualname_of(x)}: `{x.id}` read after the loop at line {s.lineno}", False,
+                                         f"`{x.id}` is bound only inside the loop over `{unparse(s.iter)[:40]}`; after the loop it holds the last "
+                                         f"iteration's value (work for earlier items is skipped)")
+                        else:
+                            check.ob(rule, s, f"{qualname_of(s)}: loop over {unparse(s.iter)[:40]}", True,
+                                     f"loop-local names {sorted(only)[:4]} are not read after the loop", nontrivial=True)
+    check.note(loops_checked=n_loops)
+
+
+def announce_cover(check: Check, repo: Repo) -> None:
+    rule = "ANNOUNCE-COVER"
+    check.rule(
+        rule,
+        "every work-queue event class that carries new_groups / new_streams has both handed to "
+        "_to_pending_results in its branch of the publisher, under a guard that mentions both (or none): "
+        "work that is started but never announced delivers data under an id the client has not seen",
+    )
+    wq = repo.mod("execution.incremental.work_queue")
+    carriers = {}
+    for c in wq.classes():
+        fields = {s.target.id for s in c.body if isinstance(s, ast.AnnAssign) and isinstance(s.target, ast.Name)}
+        if {"new_groups", "new_streams"} & fields:
+            carriers[c.name] = fields & {"new_groups", "new_streams"}
+    if len(carriers) < 2:
+        raise AnalysisError(f"event classes carrying new work not recognised: {carriers}")
+    fn = repo.func("execution.incremental.incremental_publisher", "IncrementalPublisher._handle_work_queue_event")
+    for arm in walk_body(fn):
+        if isinstance(arm, ast.If) and isinstance(arm.test, ast.Call) and call_name(arm.test) == "isinstance" and unparse(arm.test.args[0]) == "event":
+            cls = unparse(arm.test.args[1])
+            if cls not in carriers:
+                continue
+            calls = [c for s in arm.body for c in ast.walk(s) if isinstance(c, ast.Call) and last_attr(c) == "_to_pending_results"]
+            ok, why = False, "no _to_pending_results call in this branch"
+            if calls:
+                txt = unparse(calls[0])
+                both = all(f"event.{f}" in txt or _alias_of(arm, f) in txt for f in carriers[cls])
+                guards = [a for a in ancestors(calls[0]) if isinstance(a, ast.If) and a is not arm and any(x is a for s in arm.body for x in ast.walk(s))]
+                g_ok = all(all(f in unparse(g.test) for f in carriers[cls]) for g in guards)
+                ok = both and g_ok
+                why = ("both passed; guard mentions both" if ok else
+                       f"passed: {txt[:80]}; guard(s): {[unparse(g.test) for g in guards]} - does not cover {sorted(carriers[cls])}")
+            check.ob(rule, arm, f"branch {cls}: new work announced", ok, why)
+    check.floor(rule, 2, "event classes carrying new work")
+
+
+def _alias_of(arm: ast.If, field: str) -> str:
+    for s in arm.body:
+        for a in ast.walk(s):
+            if isinstance(a, ast.Assign) and len(a.targets) == 1 and isinstance(a.targets[0], ast.Name) and f"event.{field}" in unparse(a.value):
+                return a.targets[0].id
+    return "\0"
